@@ -110,4 +110,25 @@ def pmap(fn, chunks, workers=None):
         return [fn(c) for c in chunks]
     ctx = mp.get_context('fork')
     with cf.ProcessPoolExecutor(max_workers=workers, mp_context=ctx) as ex:
-        return list(ex.map(fn, chunks))
+        res = list(ex.map(_Safe(fn), chunks))
+    for r in res:
+        if isinstance(r, _WorkerError):
+            raise RuntimeError('harness worker failed:\n' + r.text)
+    return res
+
+
+class _WorkerError(object):
+    def __init__(self, text):
+        self.text = text
+
+
+class _Safe(object):
+    def __init__(self, fn):
+        self.fn = fn
+
+    def __call__(self, chunk):
+        try:
+            return self.fn(chunk)
+        except BaseException:
+            import traceback
+            return _WorkerError(traceback.format_exc()[-3000:])
